@@ -2,6 +2,13 @@
 from .runner import HarnessError
 
 
+class DivergentReplay(HarnessError):
+    """Replaying a recorded prefix of answers met other choice points than the execution that recorded it."""
+
+
+NOT_REPRODUCIBLE = "execution_not_reproducible_with_identical_answers"
+
+
 class Chooser:
     """choose(n) returns the recorded prefix answer, then 0 (the default answer) at every later point."""
 
@@ -19,7 +26,7 @@ class Chooser:
         if i < len(self.prefix):
             c = self.prefix[i]
             if c >= n:
-                raise HarnessError(f"divergent replay: prefix answer {c} out of range {n} at point {i} ({label})")
+                raise DivergentReplay(f"divergent replay: prefix answer {c} out of range {n} at point {i} ({label})")
         else:
             c = 0
         self.trace.append((n, c))
@@ -35,18 +42,32 @@ class Chooser:
         return sum(1 for _, c in self.trace if c != 0)
 
 
-def explore(body, max_dev=None, cap=None):
+def explore(body, max_dev=None, cap=None, diverged=None):
     """Yield (chooser, result) for every execution of body(chooser) within the bounds.
     Every execution (= maximal choice sequence) is produced exactly once. `cap` bounds the number of
-    executions; when hit, the generator's .capped attribute equivalent is signalled by a final (None, None)."""
+    executions; when hit, the generator's .capped attribute equivalent is signalled by a final (None, None).
+
+    A replayed prefix that meets other choice points than the execution that recorded it is a hard error
+    (DivergentReplay) - unless the caller passes `diverged`: body builds fresh objects and the harness owns every random
+    answer, so a divergence then means the code under test carries state between objects / executions or reads a source
+    the harness does not own. In that case one last pair (chooser, diverged(message)) is yielded and the exploration of
+    this body ends."""
     stack = [()]
     n_exec = 0
     while stack:
         prefix = stack.pop()
         ch = Chooser(prefix)
-        res = body(ch)
-        if len(ch.trace) < len(prefix):
-            raise HarnessError(f"divergent replay: execution consumed {len(ch.trace)} < prefix {len(prefix)}")
+        try:
+            res = body(ch)
+            if len(ch.trace) < len(prefix):
+                raise DivergentReplay(f"divergent replay: execution consumed {len(ch.trace)} < prefix {len(prefix)}")
+        except DivergentReplay as e:
+            if diverged is None:
+                raise
+            yield ch, diverged(f"{e}; answers {list(prefix)}: two executions on freshly built objects with the same answers "
+                               f"asked for different draws (state carried between objects / executions, or a random source "
+                               f"outside the injected generator)")
+            return
         yield ch, res
         n_exec += 1
         if cap is not None and n_exec >= cap:
